@@ -1073,7 +1073,7 @@ fn gen_glyph_fields(rng: &mut Rng) -> Vec<(String, J)> {
 
 fn gen_text(rng: &mut Rng, depth: u32) -> J {
     match rng.below(if depth == 0 { 3 } else { 8 }) {
-        0 => js("hello \u{4e16}\u{754c}"),
+        0 => js(if rng.chance(1, 4) { "0123456789012345678901234567890123456789 a long line of text that does not fit" } else { "hello \u{4e16}\u{754c}" }),
         1 => js(""),
         2 => js("a\tb\n"),
         3 => J::A((0..rng.below(4)).map(|_| gen_text(rng, depth - 1)).collect()),
@@ -1163,12 +1163,14 @@ fn gen_view(rng: &mut Rng, depth: u32) -> J {
                             } else {
                                 let mut c: Vec<(String, J)> = vec![];
                                 if rng.chance(2, 3) {
-                                    // positive factors only: non-positive / huge factors are the business of C10
-                                    let ill = match gen_scalar(rng) {
-                                        J::I(_) | J::F(_) => J::Null, // a negative factor is a number the deserialiser accepts
-                                        other => other,
-                                    };
-                                    c.push(("flex".to_string(), match rng.below(6) { 0 => ill, 1 => J::U(1), _ => J::F(*rng.pick(&[0.5, 1.0, 2.0, 3.5])) }));
+                                    // any factor: negative, zero, huge, integer, ill-typed
+                                    c.push(("flex".to_string(), match rng.below(8) {
+                                        0 => gen_scalar(rng),
+                                        1 => J::U(*rng.pick(&EXTREME)),
+                                        2 => J::F(*rng.pick(&[-1.0, -0.5, 0.0, -3.0, 1e308, -1e308, 1e-300])),
+                                        3 => J::I(-(rng.below(5) as i64) - 1),
+                                        _ => J::F(*rng.pick(&[0.5, 1.0, 2.0, 3.5])),
+                                    }));
                                 }
                                 if rng.chance(1, 3) {
                                     c.push(("align".to_string(), js(*rng.pick(&["start", "center", "end", "expand", "shrink", "bad"]))));
@@ -1201,9 +1203,7 @@ fn gen_view(rng: &mut Rng, depth: u32) -> J {
                 let mut m: Vec<(String, J)> = vec![];
                 for k in ["left", "right", "top", "bottom"] {
                     if rng.chance(1, 2) {
-                        // each margin at most 2^62: two margins plus a child size whose sum exceeds usize::MAX
-                        // overflow an unchecked add in Container::layout (reported to the C10 owner)
-                        m.push((k.to_string(), if rng.chance(1, 4) { J::U(*rng.pick(&EXTREME[..10])) } else { J::U(rng.below(4)) }));
+                        m.push((k.to_string(), if rng.chance(1, 3) { J::U(*rng.pick(&EXTREME)) } else { J::U(rng.below(4)) }));
                     }
                 }
                 f.push(("margins".to_string(), if rng.chance(1, 8) { gen_scalar(rng) } else { J::O(m) }));
